@@ -294,6 +294,10 @@ def run(chk):
                 # the file type cannot be derived from the name: the object says which loader to use
                 phase2[-4:-4] = ['vd 2 set_filetype %d' % c['kind_ft']]
                 c['p2_extra'] = 1
+            elif rng.random() < 0.4:
+                # the name tells the type: whatever type the destination object holds from earlier use does not matter (vnadata(3))
+                phase2[-4:-4] = ['vd 2 set_filetype %d' % rng.choice([1, 2, 3])]
+                c['p2_extra'] = 1
         correspondence(chk, exe, broken, numbers)
         out2, rc2, err2 = vlib.run_lines(exe, phase2 + ['cal live'], timeout=3000)
         if rc2 != 0 or len(out2) != len(phase2) + 1:
